@@ -1,4 +1,5 @@
 // families DF (1), API (2), ESC (7): see coq/Run/Api.v for the encoding
+use crate::alloc_count::{lib, take_lib};
 use crate::common::*;
 use crate::with_size;
 use fixed_buffer::*;
@@ -190,14 +191,14 @@ fn run_steps<const N: usize>(b: &mut FixedBuf<N>, steps: &[Step], log: &mut Vec<
 fn run_op<const N: usize>(buf: &mut FixedBuf<N>, c: &mut Cur, out: &mut Vec<i128>) {
     let code = c.next();
     match code {
-        0 => guarded(out, |o| o.push(buf.len() as i128)),
-        1 => guarded(out, |o| o.push(buf.is_empty() as i128)),
-        2 => guarded(out, |o| enc_bytes(o, buf.readable())),
-        3 => guarded(out, |o| enc_bytes(o, buf.mem())),
-        4 => guarded(out, |_| buf.clear()),
-        5 => guarded(out, |_| buf.shift()),
-        6 => guarded(out, |o| o.push(buf.read_byte() as i128)),
-        7 => guarded(out, |o| match buf.try_read_byte() {
+        0 => guarded(out, |o| o.push(lib(|| buf.len()) as i128)),
+        1 => guarded(out, |o| o.push(lib(|| buf.is_empty()) as i128)),
+        2 => guarded(out, |o| enc_bytes(o, lib(|| buf.readable()))),
+        3 => guarded(out, |o| enc_bytes(o, lib(|| buf.mem()))),
+        4 => guarded(out, |_| lib(|| buf.clear())),
+        5 => guarded(out, |_| lib(|| buf.shift())),
+        6 => guarded(out, |o| o.push(lib(|| buf.read_byte()) as i128)),
+        7 => guarded(out, |o| match lib(|| buf.try_read_byte()) {
             None => o.push(0),
             Some(b) => {
                 o.push(1);
@@ -206,18 +207,18 @@ fn run_op<const N: usize>(buf: &mut FixedBuf<N>, c: &mut Cur, out: &mut Vec<i128
         }),
         8 => {
             let n = c.next() as usize;
-            guarded(out, |o| enc_bytes(o, buf.read_bytes(n)))
+            guarded(out, |o| enc_bytes(o, lib(|| buf.read_bytes(n))))
         }
         9 => {
             let n = c.next() as usize;
-            guarded(out, |o| enc_opt_bytes(o, buf.try_read_bytes(n)))
+            guarded(out, |o| enc_opt_bytes(o, lib(|| buf.try_read_bytes(n))))
         }
-        10 => guarded(out, |o| enc_bytes(o, buf.read_all())),
+        10 => guarded(out, |o| enc_bytes(o, lib(|| buf.read_all()))),
         11 => {
             let k = c.next() as usize;
             guarded(out, |o| {
                 let mut d = vec![0xDDu8; k];
-                let n = buf.read_and_copy_bytes(&mut d);
+                let n = lib(|| buf.read_and_copy_bytes(&mut d));
                 o.push(n as i128);
                 enc_bytes(o, &d);
             })
@@ -226,7 +227,7 @@ fn run_op<const N: usize>(buf: &mut FixedBuf<N>, c: &mut Cur, out: &mut Vec<i128
             let k = c.next() as usize;
             guarded(out, |o| {
                 let mut d = vec![0xDDu8; k];
-                let r = buf.try_read_exact(&mut d);
+                let r = lib(|| buf.try_read_exact(&mut d));
                 o.push(if r.is_some() { 1 } else { 0 });
                 enc_bytes(o, &d);
             })
@@ -235,14 +236,14 @@ fn run_op<const N: usize>(buf: &mut FixedBuf<N>, c: &mut Cur, out: &mut Vec<i128
             let k = c.next() as usize;
             guarded(out, |o| {
                 let mut d = vec![0xDDu8; k];
-                let r = Read::read(buf, &mut d);
+                let r = lib(|| Read::read(buf, &mut d));
                 enc_io_usize(o, &r);
                 enc_bytes(o, &d);
             })
         }
         14 => {
             let d = c.take_list();
-            guarded(out, |o| match buf.write_bytes(&d) {
+            guarded(out, |o| match lib(|| buf.write_bytes(&d)) {
                 Ok(n) => {
                     o.push(0);
                     o.push(n as i128)
@@ -254,7 +255,7 @@ fn run_op<const N: usize>(buf: &mut FixedBuf<N>, c: &mut Cur, out: &mut Vec<i128
             let d = c.take_list();
             guarded(out, |o| {
                 let s = std::str::from_utf8(&d).expect("WriteStr payloads are ASCII");
-                match buf.write_str(s) {
+                match lib(|| buf.write_str(s)) {
                     Ok(()) => o.push(0),
                     Err(_) => o.push(1),
                 }
@@ -263,11 +264,11 @@ fn run_op<const N: usize>(buf: &mut FixedBuf<N>, c: &mut Cur, out: &mut Vec<i128
         16 => {
             let d = c.take_list();
             guarded(out, |o| {
-                let r = Write::write(buf, &d);
+                let r = lib(|| Write::write(buf, &d));
                 enc_io_usize(o, &r)
             })
         }
-        17 => guarded(out, |o| match Write::flush(buf) {
+        17 => guarded(out, |o| match lib(|| Write::flush(buf)) {
             Ok(()) => o.push(0),
             Err(e) => {
                 o.push(1);
@@ -278,10 +279,10 @@ fn run_op<const N: usize>(buf: &mut FixedBuf<N>, c: &mut Cur, out: &mut Vec<i128
             let d = c.take_list();
             let n = c.next() as usize;
             guarded(out, |_| {
-                let w = buf.writable();
+                let w = lib(|| buf.writable());
                 let k = d.len().min(w.len());
                 w[..k].copy_from_slice(&d[..k]);
-                buf.wrote(n);
+                lib(|| buf.wrote(n));
             })
         }
         19 => {
@@ -290,7 +291,7 @@ fn run_op<const N: usize>(buf: &mut FixedBuf<N>, c: &mut Cur, out: &mut Vec<i128
             let b = c.next();
             let d = c.take_list();
             let mut rd = ScriptReader::new(d, vec![(tag, a, b)].into());
-            let r = std::panic::catch_unwind(std::panic::AssertUnwindSafe(|| buf.copy_once_from(&mut rd)));
+            let r = std::panic::catch_unwind(std::panic::AssertUnwindSafe(|| lib(|| buf.copy_once_from(&mut rd))));
             match r {
                 Ok(q) => enc_io_usize(out, &q),
                 Err(_) => out.push(PANIC),
@@ -298,7 +299,7 @@ fn run_op<const N: usize>(buf: &mut FixedBuf<N>, c: &mut Cur, out: &mut Vec<i128
         }
         20 => {
             let which = c.next();
-            guarded(out, |o| match buf.deframe(df_sel(which)) {
+            guarded(out, |o| match lib(|| buf.deframe(df_sel(which))) {
                 Ok(None) => {
                     o.push(0);
                     o.push(0)
@@ -347,7 +348,7 @@ fn run_op<const N: usize>(buf: &mut FixedBuf<N>, c: &mut Cur, out: &mut Vec<i128
         24 => guarded(out, |o| enc_bytes(o, format!("{:?}", buf).as_bytes())),
         25 => {
             let n = c.next() as usize;
-            guarded(out, |_| buf.wrote(n))
+            guarded(out, |_| lib(|| buf.wrote(n)))
         }
         _ => {}
     }
@@ -373,13 +374,13 @@ fn api_sized<const N: usize>(c: &mut Cur, out: &mut Vec<i128>) {
     while !c.done() {
         out.push(MOP);
         let track = std::env::var_os("HSYNC_ALLOCS").is_some();
-        let a0 = crate::alloc_count::allocs();
+        take_lib();
         run_op(&mut buf, c, out);
-        let a1 = crate::alloc_count::allocs();
+        let d = take_lib();
         post(&mut buf, out);
         if track {
             out.push(MAL);
-            out.push((a1 - a0) as i128);
+            out.push(d as i128);
         }
     }
 }
